@@ -599,7 +599,11 @@ def _regex_cap_get(M, fr, n, a):
 @reg(r"^regex::Match::<'_>::as_str$|^regex::Match::as_str$")
 def _regex_match_str(M, fr, n, a): return Ref(Cell(D(M, a[0]).f[0]))
 @reg(r'^<.* as std::iter::Iterator>::count$')
-def _iter_count(M, fr, n, a): return len(drain_all(M, fr, to_iter(M, fr, a[0])))
+def _iter_count(M, fr, n, a):
+    v = a[0]
+    while isinstance(v, Ref): v = M.deref(v)
+    if isinstance(v, Agg) and v.name == 'EncodeUtf16': return utf16_len(v.f[0].b)
+    return len(drain_all(M, fr, to_iter(M, fr, a[0])))
 @reg(r'^<.* as std::iter::Iterator>::last$')
 def _iter_last(M, fr, n, a):
     xs = drain_all(M, fr, to_iter(M, fr, a[0])); return some(xs[-1]) if xs else none()
@@ -1478,6 +1482,22 @@ def _problem(M, fr, n, a):
     nm = names[p.disc] if names and not is_sym(p.disc) else '?'
     return Ref(Cell(Str('%s:%s' % (n.split('::')[-1], nm))))
 
+
+@reg(r'^core::str::<impl str>::encode_utf16$')
+def _encode_utf16(M, fr, n, a): return Agg('EncodeUtf16', [as_str(M, a[0])])
+def utf16_len(bs):
+    """number of UTF-16 code units of valid UTF-8 bytes: one per non-continuation byte, plus one per four-byte lead"""
+    tot = 0
+    for b in bs:
+        if isinstance(b, int): tot = tot + (0 if (b & 0xC0) == 0x80 else (2 if b >= 0xF0 else 1))
+        else: tot = tot + z3.If((b & 0xC0) == 0x80, z3.BitVecVal(0, 64), z3.If(z3.UGE(b, 0xF0), z3.BitVecVal(2, 64), z3.BitVecVal(1, 64)))
+    return simp(tot) if not isinstance(tot, int) else tot
+def char_len(bs):
+    tot = 0
+    for b in bs:
+        if isinstance(b, int): tot = tot + (0 if (b & 0xC0) == 0x80 else 1)
+        else: tot = tot + z3.If((b & 0xC0) == 0x80, z3.BitVecVal(0, 64), z3.BitVecVal(1, 64))
+    return simp(tot) if not isinstance(tot, int) else tot
 @reg(r'^core::str::<impl str>::lines$')
 def _str_lines(M, fr, n, a):
     """str::lines: split on \\n, a trailing \\r of each line is stripped, no final empty line"""
@@ -1514,7 +1534,50 @@ def _str_split(M, fr, n, a):
         else: cur.append(s.b[i]); i += 1
     out.append(Ref(Cell(Str(cur))))
     return IterV(out)
-@reg(r'^core::str::<impl str>::(trim_end_matches|trim_start_matches|strip_prefix|strip_suffix)$')
+def _char_pred(M, fr, pat):
+    """a pattern that tests one character (char, closure FnMut(char) -> bool, slice/array of chars) as a Python predicate; None for string patterns"""
+    p = simp(pat) if not isinstance(pat, (Ref, Str, SymStr, Agg, EnumV, VecV, FnItem)) else pat
+    if isinstance(p, int) or is_sym(p): return lambda c: v_eq(c, p)
+    v = M.deref(p)
+    while isinstance(v, Ref): v = M.deref(v)
+    if isinstance(v, (Str, SymStr)): return None
+    if isinstance(v, FnItem) or (isinstance(v, Agg) and v.name.startswith('{closure@')): return lambda c: M.call_closure(fr, p, [c])
+    if isinstance(v, VecV): return lambda c: b_or(*[v_eq(c, x) for x in v.items])
+    if isinstance(v, Agg) and v.name.startswith('['): return lambda c: b_or(*[v_eq(c, x) for x in v.f])
+    raise Unsupported('pattern %r' % (v,))
+def _char_at_end(M, s, end):
+    """(start, code point) of the character that ends at byte offset `end` of valid UTF-8 text"""
+    for k in (1, 2, 3, 4):
+        if end - k < 0: break
+        b = s.b[end - k]
+        lead = ((b & 0xC0) != 0x80) if isinstance(b, int) else M.branch((b & 0xC0) != 0x80)
+        if lead:
+            it = Agg('Chars', [Str(s.b[end - k:end]), 0]); okk, c = chars_next(M, None, it)
+            return end - k, c
+    raise Unsupported('text is not valid UTF-8')
+@reg(r'^core::str::<impl str>::(trim_matches|trim_end_matches|trim_start_matches)$')
+def _str_trim_matches(M, fr, n, a):
+    s = as_str(M, a[0]); op = n.rsplit('::', 1)[1]
+    pred = _char_pred(M, fr, a[1])
+    if pred is None:
+        if op == 'trim_matches': raise Unsupported('trim_matches with a string pattern')
+        return _str_strip(M, fr, n, a)
+    if isinstance(s, SymStr): raise Unsupported('trim of an opaque string')
+    lo, hi = 0, len(s.b)
+    if op in ('trim_matches', 'trim_start_matches'):
+        while lo < hi:
+            it = Agg('Chars', [Str(s.b[lo:hi]), 0]); okk, c = chars_next(M, fr, it)
+            if not M.branch(tobool_model(pred(c))): break
+            lo += it.f[1]
+    if op in ('trim_matches', 'trim_end_matches'):
+        while lo < hi:
+            st, c = _char_at_end(M, Str(s.b[lo:hi]), hi - lo)
+            if not M.branch(tobool_model(pred(c))): break
+            hi = lo + st
+    return Ref(Cell(Str(s.b[lo:hi])))
+def tobool_model(v):
+    return v
+@reg(r'^core::str::<impl str>::(strip_prefix|strip_suffix)$')
 def _str_strip(M, fr, n, a):
     s = as_str(M, a[0]); p = _pat_bytes(M, a[1]); op = n.rsplit('::', 1)[1]
     if op == 'strip_prefix':
@@ -1685,8 +1748,8 @@ def _dur_check(M, ns, what):
         secs = (abs(ns) // NS) * (1 if ns >= 0 else -1)
         if not (I64_MIN <= secs <= I64_MAX): raise Panic(what)
         return
-    secs = ns / z3.BitVecVal(NS, 128)           # signed division truncates toward zero, like time's seconds
-    bad = z3.Or(secs < z3.BitVecVal(I64_MIN, 128), secs > z3.BitVecVal(I64_MAX, 128))
+    # seconds = ns / 10^9 truncated toward zero must fit i64; stated as a range of ns so that no 128-bit division reaches the solver
+    bad = z3.Or(ns < z3.BitVecVal(I64_MIN * NS - (NS - 1), 128), ns > z3.BitVecVal(I64_MAX * NS + (NS - 1), 128))
     if M.branch(bad): raise Panic(what)
 @reg(r'^time::Duration::(seconds|milliseconds|microseconds|nanoseconds|minutes|hours|days|weeks)$|^time::duration::Duration::(seconds|milliseconds|microseconds|nanoseconds|minutes|hours|days|weeks)$')
 def _dur_ctor(M, fr, n, a):
